@@ -188,6 +188,7 @@ def join_byte_intervals(
     if nop is not None:
         nop_encodings.setdefault(gtirb.CodeBlock.DecodeMode.Default, nop)
 
+    destination_interval = intervals[0]
     if tables is None:
         # This is a bit hacky, but to avoid assuming that the byte intervals
         # are all in the same module, the tables are a list of dictionaries
@@ -204,6 +205,18 @@ def join_byte_intervals(
                     if aux_data and bi in aux_data:
                         table[bi] = aux_data[bi]
             if len(table) > 0:
+                # The items of the other intervals are moved into the
+                # destination's mapping, so that has to be the one stored in
+                # the aux data even if it is still empty.
+                if (
+                    destination_interval not in table
+                    and destination_interval.module is not None
+                ):
+                    aux_data = table_def.get(destination_interval.module)
+                    if aux_data is not None:
+                        table[destination_interval] = aux_data.setdefault(
+                            destination_interval, {}
+                        )
                 tables.append(table)  # type: ignore # per above this is hacky
 
     destination = intervals[0]
